@@ -52,7 +52,10 @@ def run(c: sym.Ctx, n_workers: int, depth: int, max_fails: Any, slow_exit: bool 
     class FakeProcess:
         def __init__(self, target: Any = None, kwargs: Any = None, name: str = "", daemon: bool = False) -> None:
             self.name = name
-            self.slot = int(name.rsplit("-", 1)[1]) if "-" in name else -1
+            import re
+
+            mm = re.search(r"worker-(\d+)", name or "")  # the slot is what the manager numbers the process with, whatever else the name carries
+            self.slot = int(mm.group(1)) if mm else -1
             self.pid: Optional[int] = None
             self.alive = False
             self.started = False
